@@ -168,7 +168,7 @@ def decide(idx, seed, tier, cls, given=None):
             case = {"manual": [moves, rewards, loose, pr, pl, pt], "cls": cls}
             with monitors.fs_record() as fs:
                 try:
-                    mb.create_sg_from_board(moves, rewards, loose, pr, pl, pt)
+                    mb.create_sg_from_board(moves=moves, rewards=rewards, loose_tiles=loose, prob_robot_break=pr, prob_light_break=pl, prob_tile_break=pt)
                     exc = None
                 except Exception as e:
                     exc = e
